@@ -7,7 +7,7 @@ from fractions import Fraction
 import numpy as np
 
 from geolib import call_impl
-from proto import ET, dec_bools, proj_close_nn, run_driver
+from proto import ET, dec_bools, dec_tens, proj_close_nn, run_driver
 from props.c16 import AFFINE3, polygons, vt
 
 ID = "C18"
@@ -253,6 +253,19 @@ def polygon_stream(ctx, n):
         L = g.Line(g.Point(*map(float, p)), g.Point(*map(float, q)))
         S = g.Segment(g.Point(*map(float, p)), g.Point(*map(float, q)))
         compare_sets(ctx, f"C18:polygon2d:line:{mode}", desc, exp_line, call_impl(lambda: poly.intersect(L)))
+        # the compiled Lean model of Polygon.intersect(line) (Geo.Shapes.polyIntersectLine, about which T18_polyIntersectLine_sound is):
+        # its points, duplicates removed, are the same exact set
+        lcoef = [p[1] - q[1], q[0] - p[0], p[0] * q[1] - p[1] * q[0]]
+        ans = run_driver(["m.polyintersectline " + " ".join(vt(v) for v in V) + " " + vt(lcoef)])[0].split(" ")
+        ctx.count("model:polyintersectline")
+        okm = ans[0] == "ok"
+        if okm:
+            ent = dec_tens(ans[1]).entries
+            mpts = [[ent[3 * i + j][0] for j in range(3)] for i in range(len(ent) // 3)]
+            okm = all(any(same(e, np.array([float(x) for x in mp])) for mp in mpts) for e in exp_line) and \
+                all(any(same(e, np.array([float(x) for x in mp])) for e in exp_line) for mp in mpts)
+        if not okm:
+            ctx.disagree(f"C18:model:polyintersectline:{mode}", desc, [[str(x) for x in e] for e in exp_line], " ".join(ans)[:300], replay=[desc])
         compare_sets(ctx, f"C18:polygon2d:segment:{mode}", desc + " (as segment)", exp_seg, call_impl(lambda: poly.intersect(S)))
         # the same polygon in 3-space pierced by a line through the image of a chosen plane point
         u, v, o = rng.choice(AFFINE3)
